@@ -122,10 +122,15 @@ func (d *uripostDecoder) readBlock(reader *bufio.Reader, commonHeader http.Heade
 		return nil, err
 	}
 
-	buff := make([]byte, bodySize)
+	buff := []byte{}
 	if bodySize != 0 {
-		if n, err := io.ReadFull(reader, buff); err != nil {
-			err = xerrors.Errorf("failed to read ammo with err: %w, at position: %v; tried to read: %v; have read: %v", err, filePosition(d.file), bodySize, n)
+		// Do not trust declared size: allocate only what file really contains.
+		buff, err = io.ReadAll(io.LimitReader(reader, int64(bodySize)))
+		if err == nil && len(buff) < bodySize {
+			err = io.ErrUnexpectedEOF
+		}
+		if err != nil {
+			err = xerrors.Errorf("failed to read ammo with err: %w, at position: %v; tried to read: %v; have read: %v", err, filePosition(d.file), bodySize, len(buff))
 			return nil, err
 		}
 	}
